@@ -20,7 +20,8 @@ def family_cases(fam: str, maxnodes: int = 2, run=None) -> list:
         raise MachineryError(f"LangFamilies {fam}: {res.error}\n{res.stdout[-2000:]}")
     if run is not None:
         run.add_tlc(res, f"LangFamilies enumeration family={fam} maxnodes={maxnodes}")
-    return res.json
+    import json
+    return sorted(res.json, key=lambda c: json.dumps(c, sort_keys=True))      # TLC's multi-worker order is not stable
 
 
 def _operand(o, ain: list):
@@ -31,8 +32,8 @@ def _operand(o, ain: list):
     return BIN("*", AREAD(), F(0.5))
 
 
-def snip(sid: str, stmts: list, ain=(), fam: str = "") -> dict:
-    return {"id": sid, "stmts": list(stmts), "ain": list(ain), "fam": fam}
+def snip(sid: str, stmts: list, ain=(), fam: str = "", defs=None) -> dict:
+    return {"id": sid, "stmts": list(stmts), "ain": list(ain), "fam": fam, "defs": defs or {}}
 
 
 def bin_snippets(cases: list) -> list:
@@ -234,6 +235,93 @@ def persist_programs() -> list:
     return P
 
 
+# ------------------------------------------------------------------ TypeFlows (C02)
+def _tval(t: str, v: int, ain: list):
+    ain.append(v)
+    if t == "int":
+        return AREAD()
+    if t == "float":
+        return BIN("*", AREAD(), F(0.5))
+    if t == "bool":
+        return CMP(AREAD(), (">", I(0)))
+    return FSTR("s", AREAD(), ";")
+
+
+def tflow_snippets(cases: list) -> list:
+    out = []
+    for n, c in enumerate(cases):
+        site, t1, t2 = c["site"], c["t1"], c["t2"]
+        two = t2 != "none"
+        x, y, f = f"tx{n}", f"ty{n}", f"tf{n}"
+        ain: list = []
+        defs = {}
+        if site == "straight":
+            st = [ASSIGN(x, _tval(t1, 3, ain))] + ([ASSIGN(x, _tval(t2, 5, ain))] if two else []) + [WRITE(V(x))]
+        elif site in ("taken-branch", "untaken-branch", "else-branch"):
+            if not two:
+                continue
+            st = [ASSIGN(x, _tval(t1, 3, ain))]
+            ain.append(1 if site == "taken-branch" else 0)
+            cond = CMP(AREAD(), (">", I(0)))
+            asg = [ASSIGN(x, _tval(t2, 5, ain))]
+            st += [IF([(cond, asg)])] if site != "else-branch" else [IF([(cond, [PASS])], asg)]
+            st += [WRITE(V(x))]
+        elif site in ("for-body", "while-body"):
+            if not two:
+                continue
+            st = [ASSIGN(x, _tval(t1, 3, ain))]
+            asg = ASSIGN(x, _tval(t2, 5, ain))
+            ain.append(ain[-1])
+            if site == "for-body":
+                st += [FOR(f"ti{n}", I(2), [asg])]
+            else:
+                st += [ASSIGN(f"tw{n}", I(0)), WHILE(CMP(V(f"tw{n}"), ("<", I(2))), [AUG(f"tw{n}", "+", I(1)), asg])]
+            st += [WRITE(V(x))]
+        elif site == "function-local":
+            body = [ASSIGN("loc", _tval(t1, 3, ain))] + ([ASSIGN("loc", _tval(t2, 5, ain))] if two else []) + [WRITE(V("loc"))]
+            defs[f] = DEF([], body)
+            st = [EXPR(CALL(f))]
+        elif site == "param-two-call-sites":
+            defs[f] = DEF(["p"], [WRITE(V("p"))])
+            st = [EXPR(CALL(f, _tval(t1, 3, ain)))] + ([EXPR(CALL(f, _tval(t2, 5, ain)))] if two else [])
+        elif site == "return-join":
+            if not two:
+                continue
+            a2: list = []
+            defs[f] = DEF(["c"], [IF([(V("c"), [RETURN(_tval(t1, 3, a2))])]), RETURN(_tval(t2, 5, a2))])
+            # the function reads its value when it runs: first call takes the first return, second the second
+            ain += [1, 3, 0, 5]
+            st = [WRITE(CALL(f, CMP(AREAD(), (">", I(0))))), WRITE(CALL(f, CMP(AREAD(), (">", I(0)))))]
+        elif site == "hoisted-from-branch":
+            ain.append(1)
+            st = [IF([(CMP(AREAD(), (">", I(0))), [ASSIGN(x, _tval(t1, 3, ain))])])] + ([ASSIGN(x, _tval(t2, 5, ain))] if two else []) + [WRITE(V(x))]
+        elif site == "hoisted-from-loop":
+            st = [FOR(f"ti{n}", I(1), [ASSIGN(x, _tval(t1, 3, ain))])] + ([ASSIGN(x, _tval(t2, 5, ain))] if two else []) + [WRITE(V(x))]
+        elif site == "augmented":
+            if not two:
+                continue
+            st = [ASSIGN(x, _tval(t1, 3, ain)), AUG(x, "+", _tval(t2, 5, ain)), WRITE(V(x))]
+        elif site == "swap":
+            if not two:
+                continue
+            st = [ASSIGN(x, _tval(t1, 3, ain)), ASSIGN(y, _tval(t2, 5, ain)), TUPLE([x, y], [V(y), V(x)]), WRITE(V(x)), WRITE(V(y))]
+        else:
+            raise ValueError(site)
+        out.append(snip(f"tflow{n}", st, ain, "tflow:" + site, defs))
+    return out
+
+
+def result_type_snippets(cases: list) -> list:
+    """ExprCases again, but the result goes through a variable first: its declared type must hold the value."""
+    out = []
+    for n, c in enumerate(cases):
+        ain: list = []
+        l, r = _operand(c["l"], ain), _operand(c["r"], ain)
+        e = CMP(l, (c["op"], r)) if c["fam"] == "cmp" else BIN(c["op"], l, r)
+        out.append(snip(f"rt{c['fam']}{n}", [ASSIGN(f"rv{n}", e), WRITE(V(f"rv{n}"))], ain, "result-type"))
+    return out
+
+
 # ------------------------------------------------------------------ packing
 def pack(snips: list, size: int = 20, mode: str = "setup", prefix: str = "pk") -> list:
     """Programs made of `size` snippets each, separated by serial markers '#<id>'.
@@ -246,6 +334,7 @@ def pack(snips: list, size: int = 20, mode: str = "setup", prefix: str = "pk") -
         body: list = []
         for j, s in enumerate(part):
             body.append(WRITE(S(f"#{s['id']}")))
+            defs.update(copy.deepcopy(s.get("defs") or {}))
             if mode == "function":
                 defs[f"fn_{s['id']}"] = DEF([], copy.deepcopy(s["stmts"]))
                 body.append(EXPR(CALL(f"fn_{s['id']}")))
@@ -352,3 +441,101 @@ class Gen:
         setup = [ASSIGN("a", AREAD()), ASSIGN("b", self.lit())] + self.block(["a", "b"], 2, False)
         loop = self.block(["a", "b"], 2, False) if r.random() < 0.8 else None
         return PROG(setup, loop, {}, npass=3, ain=[r.choice([-3, 0, 2, 5])], pid=pid)
+
+
+# ------------------------------------------------------------------ C03: fold sites x routings (AST form)
+ROUTINGS = ("literal", "constvar", "after", "untaken", "taken", "loop2", "loop0", "fn_called", "fn_uncalled", "sensor")
+
+
+def route(routing: str, name: str, v: int, tag: str):
+    """Put the int v into variable `name` by the given routing.  Returns (pre, expr, post, defs, ain)."""
+    other = v + 1
+    if routing == "literal":
+        return [], I(v), [], {}, []
+    if routing == "sensor":
+        return [ASSIGN(name, AREAD())], V(name), [], {}, [v]
+    if routing == "constvar":
+        return [ASSIGN(name, I(v))], V(name), [], {}, []
+    if routing == "after":
+        return [ASSIGN(name, I(v))], V(name), [ASSIGN(name, I(other))], {}, []
+    if routing == "untaken":
+        return [ASSIGN(name, I(v)), IF([(CMP(AREAD(), (">", I(0))), [ASSIGN(name, I(other))])])], V(name), [], {}, [0]
+    if routing == "taken":
+        return [ASSIGN(name, I(other)), IF([(CMP(AREAD(), (">", I(0))), [ASSIGN(name, I(v))])])], V(name), [], {}, [1]
+    if routing == "loop2":
+        return [ASSIGN(name, I(v - 2)), FOR(f"lk_{tag}", I(2), [AUG(name, "+", I(1))])], V(name), [], {}, []
+    if routing == "loop0":
+        return [ASSIGN(name, I(v)), FOR(f"lk_{tag}", AREAD(), [AUG(name, "+", I(1))])], V(name), [], {}, [0]
+    if routing == "fn_called":
+        return [ASSIGN(name, I(other)), EXPR(CALL(f"set_{tag}"))], V(name), [], {f"set_{tag}": DEF([], [ASSIGN(name, I(v))], [name])}, []
+    if routing == "fn_uncalled":
+        return [ASSIGN(name, I(v))], V(name), [], {f"set_{tag}": DEF([], [ASSIGN(name, I(other))], [name])}, []
+    raise ValueError(routing)
+
+
+FOLD_SITES = ("sleep", "range", "arith", "awrite", "index", "strlen", "listlen")
+
+
+def fold_snippets() -> list:
+    out = []
+    n = 0
+    for site in FOLD_SITES:
+        for routing in ROUTINGS:
+            for v in (3, 10):
+                n += 1
+                tag = f"{n}"
+                name = f"fv{n}"
+                pre, e, post, defs, ain = route(routing, name, v, tag)
+                if site == "sleep":
+                    st = [SLEEP(e)]
+                elif site == "range":
+                    st = [FOR(f"fi{n}", e, [WRITE(V(f"fi{n}"))])]
+                elif site == "arith":
+                    st = [WRITE(BIN("+", BIN("*", e, I(2)), I(1)))]
+                elif site == "awrite":
+                    st = [AWRITE(9, e)]
+                elif site == "index":
+                    st = [ASSIGN(f"fl{n}", COMP(f"fj{n}", I(12), BIN("*", V(f"fj{n}"), I(3)))), WRITE(INDEX(V(f"fl{n}"), e))]
+                elif site == "strlen":
+                    # the routed value selects which string the name holds; len() must follow it
+                    st = [ASSIGN(f"fs{n}", IFEXP(CMP(e, (">", I(5))), S("abcdefgh"), S("abc"))), WRITE(CALL("len", V(f"fs{n}")))]
+                elif site == "listlen":
+                    st = [ASSIGN(f"fl{n}", COMP(f"fj{n}", e, V(f"fj{n}"))), WRITE(CALL("len", V(f"fl{n}")))]
+                s = snip(f"fold-{site}-{routing}-{v}", pre + st + post, ain, f"fold:{site}:{routing}", defs)
+                s["routing"], s["site"] = routing, site
+                out.append(s)
+    return out
+
+
+def list_routing_snippets() -> list:
+    """len()/index of a list that is mutated on some path before the site (taken / untaken branch, loop that runs
+    0 / 2 times, called / uncalled function, through an alias)."""
+    out = []
+    n = 0
+    for routing in ("straight", "untaken", "taken", "loop2", "loop0", "fn_called", "fn_uncalled"):
+        for op in ("append", "remove"):
+            n += 1
+            xs = f"lr{n}"
+            mut = APPEND(xs, I(9)) if op == "append" else REMOVE(xs, I(2))
+            defs, ain = {}, []
+            if routing == "straight":
+                pre = [mut]
+            elif routing in ("untaken", "taken"):
+                ain = [1 if routing == "taken" else 0]
+                pre = [IF([(CMP(AREAD(), (">", I(0))), [mut])])]
+            elif routing == "loop2":
+                pre = [FOR(f"lk{n}", I(2), [APPEND(xs, V(f"lk{n}"))])] if op == "append" else [FOR(f"lk{n}", I(2), [REMOVE(xs, BIN("+", V(f"lk{n}"), I(1)))])]
+            elif routing == "loop0":
+                ain = [0]
+                pre = [FOR(f"lk{n}", AREAD(), [mut])]
+            elif routing == "fn_called":
+                defs = {f"mut{n}": DEF([], [mut], [xs])}
+                pre = [EXPR(CALL(f"mut{n}"))]
+            else:
+                defs = {f"mut{n}": DEF([], [mut], [xs])}
+                pre = []
+            st = [ASSIGN(xs, LIST(I(1), I(2), I(3)))] + pre + [WRITE(CALL("len", V(xs))), WRITE(INDEX(V(xs), I(-1)))]
+            s = snip(f"listroute-{routing}-{op}", st, ain, f"listroute:{routing}", defs)
+            s["routing"], s["site"] = routing, "list-" + op
+            out.append(s)
+    return out
